@@ -43,4 +43,10 @@ CHECKS["C16"] = {
   "note": "exact reals; distance ties make the nearest neighbour ambiguous: the order dependence they cause is a recorded genuine finding (signature distance-tie); any order dependence without a tie is a violation",
   "technique": TECH,
 }
+CHECKS["C06"] = {
+  "text": "VoronoiFPS (_init_greedy_search incl. the timing calibration under stubbed clocks, _get_active, _update_post_selection, _continue_greedy_search) is executed on fully symbolic points with a symbolic switching fraction covering (0,1]; on every path: each pick is a farthest candidate w.r.t. an independent distance oracle, the distance table after every step equals the true minimum distances (so no pruned point could have lowered its distance), the selection equals plain FPS run on the same path or differs only from a proven tie, the requested count is honoured for int / fraction / None, cold and warm-started. The triangle-inequality fact behind the pruning rule is proved once by z3 for generic vectors and instantiated. Bounded: 4x2 (thorough 5x2, 4x3).",
+  "design_ref": "DESIGN.md 2/C06",
+  "note": "exact reals; calibration clock replaced by three deterministic schedules, its possible results covered by the symbolic fraction; feasibility of paths over-approximated by the linear abstraction only (obligations are still decided exactly)",
+  "technique": TECH,
+}
 NOT_APPLICABLE = {}
